@@ -27,7 +27,9 @@ def make_batch(n, c, h, w, seed=0, scale=1.0, dtype=None):
     mask[:, :, max(h // 2 - 1, 0), :, :] = True  # two sampled rows: a single one gives a constant-modulus image
     sens = torch.randn(n, c, h, w, 2, generator=g, dtype=dt)
     sens = sens / (sens**2).sum(dim=(1, -1), keepdim=True).sqrt()
-    return {"kspace": torch.where(mask, ks, torch.zeros(1, dtype=dt)), "mask": mask, "sens": sens}
+    # per-sample scaling factors (as the data pipeline computes them), for the models that take them
+    sf = 0.5 + 2.0 * torch.rand(n, generator=g, dtype=dt)
+    return {"kspace": torch.where(mask, ks, torch.zeros(1, dtype=dt)), "mask": mask, "sens": sens, "scaling_factor": sf}
 
 
 def entries():
@@ -120,7 +122,7 @@ def entries():
     xs = dict(mwcnn_hidden_channels=4, mwcnn_num_scales=2, dual_conv_hidden_channels=4, dual_conv_n_convs=2, dual_didn_hidden_channels=4, dual_didn_num_dubs=1, dual_didn_num_convs_recon=1)
     add("XPDNet:primal-only", lambda: XPDNet(F, B, num_primal=2, num_dual=1, num_iter=2, use_primal_only=True, **xs), kms, "image", 4)
     add("XPDNet:CONV", lambda: XPDNet(F, B, num_primal=2, num_dual=2, num_iter=2, use_primal_only=False, kspace_model_architecture="CONV", **xs), kms, "image", 4)
-    add("XPDNet:DIDN-normalize", lambda: XPDNet(F, B, num_primal=2, num_dual=2, num_iter=2, use_primal_only=False, kspace_model_architecture="DIDN", normalize=True, **xs), kms, "image", 4)
+    add("XPDNet:DIDN-normalize", lambda: XPDNet(F, B, num_primal=2, num_dual=2, num_iter=2, use_primal_only=False, kspace_model_architecture="DIDN", normalize=True, **xs), lambda m, b: [m(b["kspace"], b["mask"], b["sens"], b["scaling_factor"])], "image", 4)
 
     from direct.nn.kikinet.kikinet import KIKINet
 
@@ -128,7 +130,8 @@ def entries():
     for p in ("MWCNN", "UNET", "NORMUNET"):
         for d in ("CONV", "DIDN", "UNET", "NORMUNET"):
             add("KIKINet:%s-%s" % (p, d), lambda p=p, d=d: KIKINet(F, B, image_model_architecture=p, kspace_model_architecture=d, num_iter=2, **ksm_small), kms, "image", max(pmin[p], dmin[d]), unet=2 if "UNET" in (p, d) else None)
-    add("KIKINet:normalize", lambda: KIKINet(F, B, image_model_architecture="UNET", kspace_model_architecture="CONV", num_iter=1, normalize=True, **ksm_small), kms, "image", 4, unet=2)
+    kms_sf = lambda m, b: [m(b["kspace"], b["mask"], b["sens"], b["scaling_factor"])]  # noqa: E731
+    add("KIKINet:normalize", lambda: KIKINet(F, B, image_model_architecture="UNET", kspace_model_architecture="CONV", num_iter=1, normalize=True, **ksm_small), kms_sf, "image", 4, unet=2)
 
     from direct.nn.jointicnet.jointicnet import JointICNet
 
@@ -169,7 +172,7 @@ def entries():
     from direct.nn.varsplitnet.varsplitnet import MRIVarSplitNet
 
     add("MRIVarSplitNet:unet", lambda: MRIVarSplitNet(F, B, 2, 2, image_model_architecture=ModelName.UNET, image_unet_num_filters=4, image_unet_num_pool_layers=2), ksm, "image", 4, unet=2)
-    add("MRIVarSplitNet:conv-kspace-conv", lambda: MRIVarSplitNet(F, B, 2, 1, InitType.ZERO_FILLED, False, ModelName.CONV, False, ModelName.CONV, image_conv_hidden_channels=4, image_conv_n_convs=2, kspace_conv_hidden_channels=4, kspace_conv_n_convs=2), ksm, "image", 1)
+    add("MRIVarSplitNet:conv-kspace-conv", lambda: MRIVarSplitNet(F, B, 2, 1, InitType.ZERO_FILLED, False, ModelName.CONV, False, ModelName.CONV, image_conv_hidden_channels=4, image_conv_n_convs=2, kspace_conv_hidden_channels=4, kspace_conv_n_convs=2), lambda m, b: [m(b["kspace"], b["sens"], b["mask"], b["scaling_factor"])], "image", 1)
 
     from direct.nn.vsharp.vsharp import VSharpNet
 
